@@ -177,6 +177,7 @@ def _run_one(job):
         else:
             out = {'harness_error': text, 'job': jsonable(job)}
     out['wall'] = time.time() - t
+    out['jobdesc'] = json.dumps(jsonable(job))[:300]
     return out
 
 
@@ -203,7 +204,7 @@ def child_main(pid, tier, seed, outpath, workers):
         if 'harness_error' in r:
             errors.append(r)
             continue
-        slow.append(r.get('wall', 0.0))
+        slow.append((r.get('wall', 0.0), r.get('jobdesc', '')))
         total.merge_json(r)
     if pool is not None:
         pool.close()
@@ -211,8 +212,9 @@ def child_main(pid, tier, seed, outpath, workers):
     out = total.to_json()
     out['njobs'] = len(jobs)
     out['errors'] = errors[:5]
-    out['job_wall_max'] = max(slow) if slow else 0.0
-    out['job_wall_sum'] = sum(slow)
+    out['job_wall_max'] = max(w for w, _ in slow) if slow else 0.0
+    out['job_wall_sum'] = sum(w for w, _ in slow)
+    out['slowest_jobs'] = [[round(w, 2), d] for w, d in sorted(slow, reverse=True)[:5]]
     with open(outpath, 'w') as f:
         json.dump(out, f)
 
@@ -308,6 +310,8 @@ def parent_main(pid, tier, seed, workers=16, write_evidence=True):
     total = Acc()
     errors = []
     njobs = 0
+    slowest = []
+    cpu_s = 0.0
     try:
         for h in hs:
             outp = os.path.join(sd, 'part-%s.json' % h)
@@ -320,6 +324,8 @@ def parent_main(pid, tier, seed, workers=16, write_evidence=True):
             d = json.load(open(outp))
             errors.extend(d['errors'])
             njobs += d['njobs']
+            slowest.extend(d.get('slowest_jobs', []))
+            cpu_s += d.get('job_wall_sum', 0.0)
             total.merge_json(d, tag={'hashseed': h})
         if errors:
             print('HARNESS-ERROR %d job(s) failed inside the harness; first:\n%s' % (len(errors), errors[0]['harness_error']))
@@ -399,6 +405,8 @@ def parent_main(pid, tier, seed, workers=16, write_evidence=True):
                 'maxima': total.maxima,
                 'counters': dict(total.counters),
                 'jobs': njobs,
+                'job_seconds_total': round(cpu_s, 1),
+                'slowest_jobs': sorted(slowest, reverse=True)[:3],
                 'hashseeds': hs,
                 'repo': repo_state(),
                 'known_finding_occurrences': sum(len(v) for v in known_hits.values()),
